@@ -3,6 +3,7 @@ package checks
 import (
 	"fmt"
 	"math"
+	"math/big"
 	"strconv"
 	"strings"
 	"unicode/utf8"
@@ -402,6 +403,24 @@ func c16Canon(sql string) (string, error) {
 	if err != nil {
 		return "", err
 	}
+	// numeric literals are compared by value, not by spelling: 0.00000095 and 9.5e-07, or 1.0 and 1, are the
+	// same literal as far as the statement is concerned (what the literal evaluates to is the echo mode's business)
+	_ = sqlparser.Walk(func(n sqlparser.SQLNode) (bool, error) {
+		if l, ok := n.(*sqlparser.Literal); ok {
+			switch l.Type {
+			case sqlparser.IntVal, sqlparser.DecimalVal, sqlparser.FloatVal:
+				if i, ok := new(big.Int).SetString(l.Val, 10); ok && i.BitLen() <= 64 {
+					l.Val, l.Type = i.String(), sqlparser.IntVal // integers of the 64-bit range: exact
+				} else if f, err := strconv.ParseFloat(l.Val, 64); err == nil {
+					l.Val, l.Type = strconv.FormatFloat(f, 'g', -1, 64), sqlparser.FloatVal
+					if f == math.Trunc(f) && math.Abs(f) < 1e15 {
+						l.Val, l.Type = strconv.FormatFloat(f, 'f', -1, 64), sqlparser.IntVal
+					}
+				}
+			}
+		}
+		return true, nil
+	}, st)
 	return sqlparser.String(st), nil
 }
 
